@@ -272,6 +272,7 @@ fn c06_case(shard: &mut Shard, seed: u64, index: u64) {
     let max_weight = *rng.pick(&[10i64, 50, 100, 100, 1000]);
     let counters = *rng.pick(&[16u64, 64, 1024]);
     let applied_base = r.applied.load(Ordering::SeqCst);
+    r.weight_last.store(0, Ordering::SeqCst);
     let policy = VerifAdmissionPolicy::new(counters, 16, 2, max_weight);
     let n_existing = rng.range(0, 9);
     let constant_hash = rng.chance(1, 6);
@@ -300,9 +301,17 @@ fn c06_case(shard: &mut Shard, seed: u64, index: u64) {
         policy.shutdown();
         return;
     }
+    // now and then the cache is over-full when the decision starts (a weight update is not admission-checked): the decision
+    // rule is the same, it just starts from a negative amount of free space
+    let over_full = n_existing > 0 && rng.chance(1, 5);
+    if over_full {
+        let victim = rng.range(1, next_id - 1);
+        if let Some(old) = policy.weight_of(victim) { policy.update(victim, old + (max_weight - policy.weight_used()).max(0) + rng.range(1, (max_weight as u64 / 2).max(1)) as i64); }
+        let _ = r.take_weight_violations();
+    }
     let _ = r.take_events();
     let free = max_weight - policy.weight_used();
-    let weight = match rng.below(8) { 0 => free.max(1), 1 => free + 1, 2 => (free - 1).max(1), 3 => max_weight, 4 => max_weight + 1, 5 => 1, 6 => i64::MAX / 2, _ => rng.range(1, max_weight as u64) as i64 };
+    let weight = match rng.below(8) { 0 => free.max(1), 1 => (free + 1).max(1), 2 => (free - 1).max(1), 3 => max_weight, 4 => max_weight + 1, 5 => 1, 6 => i64::MAX / 2, _ => rng.range(1, max_weight as u64) as i64 };
     // independent observation before the decision: charged keys, their estimates, the total
     let charged_before = policy.charged();
     let used_before = policy.weight_used();
@@ -391,7 +400,8 @@ fn c06_case(shard: &mut Shard, seed: u64, index: u64) {
     }
     if status == CommandStatus::Accepted && !charged_after.contains_key(&incoming_id) { bad(shard, "accepted-key-not-charged", "the accepted key is not charged".into()); }
     if status != CommandStatus::Accepted && charged_after.contains_key(&incoming_id) { bad(shard, "rejected-key-charged", "the rejected key is charged".into()); }
-    if used_after < 0 || used_after > max_weight { fail(shard, &["C01", "C06"], "C01/total-outside-bounds/admission".into(), format!("total {} with limit {}", used_after, max_weight), witness.clone()); }
+    if used_before <= max_weight && (used_after < 0 || used_after > max_weight) { fail(shard, &["C01", "C06"], "C01/total-outside-bounds/admission".into(), format!("total {} with limit {}", used_after, max_weight), witness.clone()); }
+    if over_full { shard.counts.inc("decisions_starting_from_an_over_full_cache"); }
     for (site, id, total, max) in r.take_weight_violations() { fail(shard, &["C01"], format!("C01/total-outside-bounds/site={}/admission", site), format!("total {} (limit {}) at key id {}", total, max, id), witness.clone()); }
     shard.counts.inc(format!("decisions:{}", class));
     let signature = fnv_step(fnv_step(fnv_step(0xC06, crate::util::fnv(class.as_bytes())), n_existing << 8 | incoming_estimate as u64), hooked.len() as u64);
